@@ -534,7 +534,10 @@ fn c18_judge(case: &Case, run: &Run, an: &Analysis, stats: &mut Stats) -> CheckR
   if nontrivial && disarmed_later { stats.class("errors_without_change_then_disarmed"); }
   if nontrivial { stats.nontrivial(fingerprint(case)); sample(case, stats); }
   if let Some(t) = an.has(&["panic-internal", "panic-diagnosed"]) { return Err(Failure::new(format!("[c18-abort] {}", t.msg))); }
-  fail_on(an, &["missing-exec", "bu-missing-schedule", "bu-leftover", "I2-verdict", "bu-verdict", "incomplete-validation"])?;
+  // An erroring check counts as an inconsistent one - nothing more (validation stops there, every other recorded
+  // dependency is still checked when its turn comes, nothing else is executed or scheduled because of it).
+  fail_on(an, &["missing-exec", "bu-missing-schedule", "bu-leftover", "I2-verdict", "bu-verdict", "incomplete-validation", "I3-order", "bu-missed-check", "bu-extra-check", "bu-unscheduled-exec", "bu-unjustified-schedule", "I2-unjustified-exec"])?;
+  if exact_only(&case.prog) { fail_on(an, &["I5-unreached-exec"])?; }
   // From-scratch equality is demanded for top-down sessions only: a `require` in the same session as a bottom-up
   // build can return a value left stale by an earlier partial top-down build (finding C03-F1, judged by C03), which
   // has nothing to do with checker errors.
@@ -606,7 +609,7 @@ fn c18_extra(spec: &Spec, tier: Tier, seed: u64, known: &Known, report: &mut Rep
 pub const C18: Spec = Spec {
   prop: "C18",
   level: "fault_enumeration",
-  rule: "generated programs whose read dependencies use Faulty checkers (check returns Err while the (resource, checker) pair is in the fault set) x histories that arm and disarm fault sets (none / all / random subsets) between sessions, with and without real changes, top-down and bottom-up; per session the errors returned by checker calls (instrumentation log, in order) must equal Session::dependency_check_errors() (same messages, same order); every erroring check must be reported as an error verdict and be followed by execution (top-down) or scheduling+execution (bottom-up) of the owner; no build aborts; outputs and resources equal the from-scratch evaluator; thorough tier additionally enumerates all fault subsets for sampled cases; non-trivial = a session with a checker error and no external change (only the error forces re-execution); distinct by case hash",
+  rule: "generated programs whose read dependencies use Faulty checkers (check returns Err while the (resource, checker) pair is in the fault set) x histories that arm and disarm fault sets (none / all / random subsets) between sessions, with and without real changes, top-down and bottom-up; per session the errors returned by checker calls (instrumentation log, in order) must equal Session::dependency_check_errors() (same messages, same order); every erroring check must be reported as an error verdict and be followed by execution (top-down) or scheduling+execution (bottom-up) of the owner, and by nothing else: validation of that task stops there, all other recorded readers/requirers are still checked in their turn, no task is executed or scheduled without its own inconsistent/erroring check, and with exact-only programs nothing runs that a from-scratch build would not run; no build aborts; outputs and resources equal the from-scratch evaluator; thorough tier additionally enumerates all fault subsets for sampled cases; non-trivial = a session with a checker error and no external change (only the error forces re-execution); distinct by case hash",
   cfg: c18_cfg,
   transform: identity,
   judge: c18_judge,
